@@ -141,6 +141,13 @@ class ConfigTargetVisibility(object):
                     for value, cond, _src in list(item.rev_values) + list(item.weak_rev_values)
                 )
                 and (not item.weak_rev_values or self._expr_is_target_constant(item.direct_dep))
+                # an active range clamps the value: its bounds and its condition count as well
+                and all(
+                    self._expr_is_target_constant(low)
+                    and self._expr_is_target_constant(high)
+                    and self._expr_is_target_constant(cond)
+                    for low, high, cond in item.ranges
+                )
             )
 
         self._constants_cache[item.name] = is_constant
